@@ -310,15 +310,12 @@ func FuncType(f *Func) reflect.Type {
 	if f.Variadic {
 		in = append(in, varType)
 	}
-	ei := f.ErrIndex()
-	for i, r := range f.Results {
-		if i == ei {
+	for _, x := range f.Layout() {
+		if x < 0 {
 			out = append(out, errType)
+		} else {
+			out = append(out, resultType(f, f.Results[x], true))
 		}
-		out = append(out, resultType(f, r, true))
-	}
-	if ei >= 0 && ei == len(f.Results) {
-		out = append(out, errType)
 	}
 	return reflect.FuncOf(in, out, f.Variadic)
 }
@@ -619,26 +616,25 @@ func (w *World) call(f *Func, ft reflect.Type, args []reflect.Value) []reflect.V
 	}
 	c := &mintCtx{f: f, exec: exec, args: obs, lps: f.LeafParams(),
 		poison: fault != FaultNone, zero: fault == FaultErr}
-	nres := len(f.Results)
-	out := make([]reflect.Value, 0, nres+1)
-	ei := f.ErrIndex()
-	for i, r := range f.Results {
-		off := 0
-		if ei >= 0 && ei <= i {
-			off = 1
+	layout := f.Layout()
+	out := make([]reflect.Value, len(layout))
+	for k, x := range layout {
+		if x >= 0 {
+			out[k] = w.buildResult(c, f.Results[x], ft.Out(k), true)
 		}
-		out = append(out, w.buildResult(c, r, ft.Out(i+off), true))
 	}
 	res := OutOK
-	if f.HasErr {
-		ev := reflect.Zero(errType)
-		if fault != FaultNone {
-			ev = reflect.ValueOf(w.injErr(f.ID, exec)).Convert(errType)
-			res = OutErr
+	for k, x := range layout {
+		switch x {
+		case -1:
+			out[k] = reflect.Zero(errType)
+			if fault != FaultNone {
+				out[k] = reflect.ValueOf(w.injErr(f.ID, exec)).Convert(errType)
+				res = OutErr
+			}
+		case -2:
+			out[k] = reflect.Zero(errType)
 		}
-		out = append(out, reflect.Value{})
-		copy(out[ei+1:], out[ei:])
-		out[ei] = ev
 	}
 	if f.Reenter && f.Role != RoleInv && fault == FaultNone {
 		w.reenter(f)
